@@ -284,6 +284,7 @@ class World:
         allm = self.methods_of(inst.cls)
         m = allm[mname]
         self.calls.append(("method", f"{inst.cls.name}.{mname}"))
+        self.externals()  # loads pending module-level state
         env = dict(self.module_env)
         env.update(self._bind(m.node, list(args), kwargs or {}, skip_self=True))
         env["self"] = inst
@@ -292,6 +293,7 @@ class World:
 
     def call_func(self, f, args, kwargs=None):
         self.calls.append(("function", f.node.name))
+        self.externals()
         env = dict(self.module_env)
         env.update(self._bind(f.node, list(args), kwargs or {}, skip_self=False))
         it = Interp(env, {}, self.region, externals=self.externals())
